@@ -334,6 +334,24 @@ theorem access_paths_agree_reads {s : Store} {name : Name} {ser : Series} (hg : 
     rw [label_slice_get hg hw hps]
     rfl
 
+/-- **The attribute path** `obj.name` reads the same series as `obj[name]` — provided no entry of the attribute
+    list carries that name (PARTIAL: see the witness below). -/
+theorem access_paths_agree_attribute_partial {s : Store} {name : Name} (hi : name ∈ s.index)
+    (ha : s.attrs.contains name = false) : getAttr s name = getItem s name := by
+  obtain ⟨ser, hg⟩ := get_of_index hi
+  have hna : name ∉ s.attrs := by simpa using ha
+  simp [getAttr, getItem, hna, hg]
+
+/-- The full statement (without the guard) is FALSE on the code as it stands: `obj.P = 5` (an ad-hoc attribute),
+    then `add_variable('P', 1)` — accepted, only the index is checked — then `obj.P = 7`: the write goes to the
+    variable (`obj['P']` reads 7s) but `obj.P` still returns the stale attribute.  Reproduced on the real code by
+    the oracle (key `attribute-shadows-variable`). -/
+theorem access_paths_agree_attribute_false_at_witness :
+    (let s := run (init [0, 1, 2] .seq false)
+        [.setAttr "P" (.scalar (.i 5)) [], .addVariable "P" (.scalar (.i 1)) none, .setAttr "P" (.scalar (.i 7)) []]
+     (getItem s "P", getAttr s "P")) = (.array [3] [.i 7, .i 7, .i 7], .other) := by
+  decide
+
 /-- **Write by label, read by every path.** -/
 theorem access_paths_agree_label_write {s : Store} {name : Name} {ser : Series} {k p : Nat} {v w : Val}
     (hg : s.get name = some ser) (hw : ser.wf s.n) (hl : locate s k = .pos p) (hp : p < s.n)
